@@ -189,8 +189,11 @@ class Flow:
     """
 
     def __init__(self, prog, fn, events=None, start=None, cut=(), cg=None,
-                 eh=True, split=None):
+                 eh=True, split=None, edge_tokens=None):
         self.prog, self.fn, self.cg = prog, fn, cg
+        # history predicate passed_edge(c, p): edge_tokens(key, pol) -> tokens set
+        # when a path takes that edge (never killed by later writes)
+        self.edge_tokens = edge_tokens
         self.split = split      # predicate on condition keys to partition on
         self.cn = CondNorm(fn)
         self.cut = set(cut)
@@ -417,7 +420,14 @@ class Flow:
                         d["C:" + k] = pol
             conds = st.conds | frozenset(facts)
             nv = frozenset(d.items())
-            s2 = St(st.must, st.may, conds)
+            must, may = st.must, st.may
+            if self.edge_tokens:
+                for k, pol in facts:
+                    toks = self.edge_tokens(k, pol)
+                    if toks:
+                        must = must | frozenset(toks)
+                        may = may | frozenset(toks)
+            s2 = St(must, may, conds)
             out[nv] = out[nv].merge(s2) if nv in out else s2
         return out
 
